@@ -56,6 +56,12 @@ def gen_dl(rng, n):
             ops.append(("COPYSYM", rng.randrange(4), rng.randrange(4)))
         elif r < 0.78:
             ops.append((rng.choice(["ASSIGNSYM", "MOVEASSIGNSYM"]), rng.randrange(4), rng.randrange(4)))
+        elif r < 0.80:
+            ops.append(("FNHOLD", rng.randrange(2), rng.randrange(4)))
+        elif r < 0.815:
+            ops.append(("FNDROP", rng.randrange(2)))
+        elif r < 0.83:
+            ops.append(("FNCALL", rng.randrange(2), rng.choice([0.0, 1.5, -2.0])))
         elif r < 0.88:
             ops.append(("DROPSYM", rng.randrange(4)))
         else:
@@ -70,8 +76,8 @@ def dl_script(cid, ops):
             L.append("OPEN %d %s" % (op[1], hx(MISSING_NAMES[op[2]]) if op[2] in MISSING_NAMES else op[2]))
         elif op[0] == "LOAD":
             L.append("LOAD %d %d %s" % (op[1], op[2], hx(op[3])))
-        elif op[0] == "CALL":
-            L.append("CALL %d %r" % (op[1], op[2]))
+        elif op[0] in ("CALL", "FNCALL"):
+            L.append("%s %d %r" % (op[0], op[1], op[2]))
         else:
             L.append(" ".join(str(x) for x in op))
         L.append("PROBE")
@@ -85,6 +91,7 @@ class DlModel:
         self.dl = {}            # slot -> instance index
         self.sym = {}           # slot -> (instance index, function)
         self.hold_ = {}         # slot -> instance index (copies of dl::get())
+        self.fn = {}            # slot -> (instance index, function): symbols stored in std::function objects
         self.outlived = False
 
     def hold(self, i):
@@ -257,6 +264,35 @@ def judge_dl(ops, lines, S, case):
                 if dst in M.sym:
                     M.drop(M.sym[dst][0])
                 M.sym[dst] = (i, fn)
+        elif op[0] == "FNHOLD":
+            dst, src = op[1], op[2]
+            if (res == "L ok") != (src in M.sym):
+                fail("copy-result", what + " -> " + res)
+                return
+            if src in M.sym:
+                i, fn = M.sym[src]
+                M.hold(i)
+                if dst in M.fn:
+                    M.drop(M.fn[dst][0])
+                M.fn[dst] = (i, fn)
+                S.counters["symbols-stored-in-std::function"] += 1
+        elif op[0] == "FNDROP":
+            if op[1] in M.fn:
+                M.drop(M.fn.pop(op[1])[0])
+        elif op[0] == "FNCALL":
+            if op[1] not in M.fn:
+                if res != "C skip":
+                    fail("call-result", what + " -> " + res)
+                    return
+            else:
+                i, fn = M.fn[op[1]]
+                if not any(d == i for d in M.dl.values()) and not any(s_[0] == i for s_ in M.sym.values()):
+                    S.counters["calls-through-std::function-after-library-object-and-symbols-died"] += 1
+                    M.outlived = True
+                want = fn(op[2])
+                if not res.startswith("C ok ") or float(res.split()[2]) != want:
+                    fail("symbol-call-returned-wrong-value", "%s -> %s, expected %r" % (what, res, want))
+                    return
         elif op[0] in ("ASSIGNSYM", "MOVEASSIGNSYM"):
             dst, src = op[1], op[2]
             ok = src in M.sym and dst in M.sym
@@ -307,6 +343,7 @@ def judge_dl(ops, lines, S, case):
     M.dl.clear()
     M.sym.clear()
     M.hold_.clear()
+    M.fn.clear()
     idx = len(ops) - 1
     if not settle(ev, "end of history"):
         return
@@ -404,6 +441,13 @@ def _work(arg):
             s_, t_ = rng.randrange(4), rng.randrange(4)
             ops = [("OPEN", s_, first), ("LOAD", t_, s_, name), ("CALL", t_, 1.5), ("DROPSYM", t_), ("DROPDL", s_),
                    ("OPEN", s_, second), ("LOAD", t_, s_, name), ("CALL", t_, 2.5)] + ops[:22]
+        if i % 8 == 4:
+            # a std::function holding the symbol is the LAST owner: the library stays mapped and the call works
+            lib = rng.choice(["A", "B"])
+            name = rng.choice(sorted(EXPORTS[lib]))
+            s_, t_, f_ = rng.randrange(4), rng.randrange(4), rng.randrange(2)
+            ops = [("OPEN", s_, lib), ("LOAD", t_, s_, name), ("FNHOLD", f_, t_), ("DROPSYM", t_), ("DROPDL", s_),
+                   ("FNCALL", f_, 1.5), ("FNDROP", f_)] + ops[:22]
         cases.append(("d%d_%d" % (chunk, i), "dl", ops))
     for i in range(nenv):
         ops = gen_env(rng, 12)
